@@ -281,7 +281,8 @@ func TestVerif_C16_Live(t *testing.T) {
 		steps := genSteps(rt)
 		dir, err := os.MkdirTemp("", "c16-")
 		if err != nil {
-			rt.Skip("tempdir")
+			rec.Label("inconclusive:tempdir")
+			return
 		}
 		defer os.RemoveAll(dir)
 		// diagnostics only: if a case is stuck for 150 s, leave the goroutine stacks behind
